@@ -1,5 +1,7 @@
 import GrinVerif.Drv.Common
 import GrinVerif.Model.Kv
+import GrinVerif.Model.KvSpace
+import GrinVerif.Model.ChainStore
 /-! Driver glue for the `kv` domain (property C18): folds the model `GV.Kv.St` over the op lines
 of `harness/src/bin/kv.rs` and recomputes every answer.
 
@@ -7,7 +9,17 @@ Reads (`get`, `exists`, `iter`, `read-outside …`, `it-next`, `obs`) and the su
 commits are values the property itself fixes (textbook nested-transaction map; the model's read
 functions are proven equal to that specification in `Props/C18.lean`), so they are compared with
 `cmpSpec`.  Error answers on malformed keys / unknown databases are internal observables
-(`cmpModel`). -/
+(`cmpModel`).
+
+Typed layer (`kv cs-new`, `kv cs-obj`, `kv cs …`, `kv cs-out …`; run `cstore` of the harness):
+`chain::store::ChainStore` and its `Batch` on the same model state through the typed functions
+of `Model/ChainStore.lean` (each a get/put on a determined key, `typed_getters_refine_kv`).  A
+typed object is declared once (`cs-obj name key aux value`: the real hash, for headers the real
+`prev_hash`, the real serialisation) and referred to by name afterwards.
+
+`kv space <map> <last_pg> <need> <chunk>`: run `frag` — the batch just executed could allocate at
+most `need` pages; if they fit behind the last page of the map `needs_resize` leaves, the batch
+must have succeeded (`tail_fit_never_fails`), whatever the fragmentation. -/
 namespace GV.Drv.KvD
 open GV GV.Drv GV.Kv
 
@@ -17,6 +29,10 @@ structure St where
   dbs : List Nat := []
   /-- remaining items of the snapshot iterator held by the other thread -/
   held : Option (List (Bytes × Val)) := none
+  /-- typed objects declared by `cs-obj`: name ↦ (key, aux, serialisation) -/
+  objs : List (String × (Bytes × Bytes × Val)) := []
+  /-- serialised `Tip` of the genesis header (`ChainStore::pibd_head` falls back to it) -/
+  genTip : Bytes := []
 
 def parseDb (s : String) : Option Nat :=
   if s = "def" then some 0 else (nat? s).map (· + 1)
@@ -82,8 +98,104 @@ def doWrite (st : St) (k : Key) (v : Option Val) (impl : String) : St × Verdict
     let op := match v with | some v => Op.put k v | none => Op.del k
     ({ st with m := step st.m op }, cmpSpec "ok" impl)
 
+
+/-! ### typed layer -/
+open ChainStore in
+def showR : R → String
+  | .notFound => "none"
+  | .err => "err"
+  | .val v => "some:" ++ showVal v
+  | .num n => s!"some:{n}"
+
+open ChainStore in
+/-- typed key of a `cs get/save <kind> <key>` line -/
+def tkeyOf (kind : String) (k : Bytes) : Option TKey :=
+  match kind with
+  | "head" => some .head
+  | "tail" => some .tail
+  | "header-head" => some .headerHead
+  | "pibd-head" => some .pibdHead
+  | "header" => some (.header k)
+  | "block" => some (.block k)
+  | "sums" => some (.sums k)
+  | "spent" => some (.spent k)
+  | "outpos-height" => some (.outPos k)
+  | _ => none
+
+def showKeys (l : List (Bytes × Val)) : String := "[" ++ ",".intercalate (l.map fun e => toHex e.1) ++ "]"
+
+open ChainStore in
+/-- typed getters; `inb` = through the innermost open batch, else through the plain `ChainStore` -/
+def csRead (st : St) (inb : Bool) (args : List String) : Option String :=
+  let get (k : TKey) : R := if inb then getB st.m k else getS st.m k
+  match args with
+  | ["get", kind, k] => match parseHex k with
+    | some kb => (tkeyOf kind kb).map (fun tk => showR (get tk))
+    | none => none
+  | ["head-header"] => some (showR (if inb then headHeaderB st.m else headHeaderS st.m))
+  | ["prev", name] => (st.objs.lookup name).map fun o =>
+      showR (if inb then prevHeaderB st.m o.2.1 else prevHeaderS st.m o.2.1)
+  | ["prev-skip", name] => (st.objs.lookup name).map fun o =>
+      match (if inb then prevHeaderB st.m o.2.1 else prevHeaderS st.m o.2.1) with
+      | .val v => (match headerHeight v with | some h => s!"some:h{h}" | none => "err")
+      | r => showR r
+  | ["header-skip", k] => (parseHex k).map fun kb =>
+      match get (.header kb) with
+      | .val v => (match headerHeight v with | some h => s!"some:h{h}" | none => "err")
+      | r => showR r
+  | ["block-exists", k] => (parseHex k).map fun kb =>
+      showBool (if inb then blockExistsB st.m kb else blockExistsS st.m kb)
+  | ["outpos", k] => (parseHex k).map fun kb =>
+      showR (if inb then outputPosB st.m kb else outputPosS st.m kb)
+  | ["pibd-head"] => if inb then none else some (showR (pibdHeadS st.m st.genTip))
+  | ["blocks-iter"] => if inb then some (showKeys (iterOf (view st.m) DB_BLOCK)) else none
+  | ["outpos-iter"] => if inb then some (showItems (iterOf (view st.m) DB_OUTPOS)) else none
+  | _ => none
+
+open ChainStore in
+/-- typed savers / deleters on the innermost open batch -/
+def csWrite (st : St) (args : List String) : Option TOp :=
+  match args with
+  | ["save", kind, k, name] => match parseHex k, st.objs.lookup name with
+    | some kb, some o =>
+      -- headers and blocks are stored under their own hash, whatever the line says
+      let kb := if kind = "header" || kind = "block" then o.1 else kb
+      (tkeyOf kind kb).map (fun tk => TOp.save tk o.2.2)
+    | _, _ => none
+  | ["delete-block", k] => (parseHex k).map TOp.deleteBlock
+  | ["delete-outpos", k] => (parseHex k).map TOp.deleteOutPos
+  | ["delete-raw", db, k] => match parseDb db, parseHex k with
+    | some db, some kb => if st.dbs.contains db && 0 < kb.length then some (TOp.deleteRaw (db, kb)) else none
+    | _, _ => none
+  | _ => none
+
+def handleCs (st : St) (args : List String) (impl : String) : St × Verdict :=
+  match csWrite st args with
+  | some op =>
+    if st.m.stack.isEmpty then (st, .unknown)
+    else ({ st with m := ChainStore.tstep st.m op }, cmpSpec "ok" impl)
+  | none =>
+    if st.m.stack.isEmpty then (st, .unknown)
+    else match csRead st true args with
+      | some r => (st, cmpSpec r impl)
+      | none => (st, .unknown)
+
 def handle (st : St) (args : List String) (impl : String) : St × Verdict :=
   match args with
+  | ["cs-new", tip] => match parseHex tip with
+    | some t => ({ m := {}, dbs := ChainStore.chainDbs, held := none, objs := [], genTip := t }, cmpSpec "ok" impl)
+    | none => (st, .unknown)
+  | ["cs-obj", name, k, aux, v] => match parseHex k, parseHex aux, parseHex v with
+    | some kb, some ab, some vb => ({ st with objs := (name, (kb, ab, vb)) :: st.objs }, .ok)
+    | _, _, _ => (st, .unknown)
+  | "cs" :: rest => handleCs st rest impl
+  | "cs-out" :: _who :: rest => match csRead st false rest with
+    | some r => (st, cmpSpec r impl)
+    | none => (st, .unknown)
+  | ["space", m, lp, need, c] => match nat? m, nat? lp, nat? need, nat? c with
+    | some m, some lp, some need, some c =>
+      if spaceOk m lp need c then (st, cmpSpec "ok" impl) else (st, .ok)
+    | _, _, _, _ => (st, .unknown)
   | ["new", dbs] =>
     let inner := ((dbs.drop 1).dropEnd 1).toString
     match (inner.splitOn ",").mapM parseDb with
